@@ -34,6 +34,7 @@ func C15(r *core.Run) {
 	rule0210(r, "C15")
 	rule0210(r, "C15")
 	rule0112(r, "C15")
+	rule0113(r)
 }
 
 var boltMutators = map[string]bool{
